@@ -107,6 +107,33 @@ func g03IsDropped(pay g03Payload, pre g03Prefix, closer, tail string) bool {
 	return false
 }
 
+// g03Values: what the application's value looked like before the attacker's
+// quote. In the quoted reading all of it is the inside of one string token, so
+// the calibration done with "x" carries over; none contains the context's own
+// quote or ends in a backslash. (idx 5 is rendered with the other quote kind.)
+var g03Values = []string{"John Smith", "2024-01-02 10:00:00", "item #5", "C#", "a--b", "5\x01 disk", "a,b;c(d)", "100%", "x/*y", "x*/y", "n\xc3\xa9e", "select", "1 or 1", "a b c d e f g h", "aaaaaaaaaaaaaaaaaaaaaaaaaaaaaaaaaaaaaaaaaaaaaaaa", "-- x", "1-- -", "{x}", "@a", "$1.50", "a\nb", "0x1f", "x y`z", "[q]"}
+
+// white-space bytes that may stand for the blank inside a tail without
+// changing where the trailing comment ends (no line feed)
+var g03TailBlanks = []string{" ", "\t", "\v", "\f", "\r", "\xa0", "\x00"}
+
+// render options beyond separators and case
+type g03Opt struct {
+	value      int // -1: the prefix as written; else index into g03Values (quoted "x"/"admin" prefixes only)
+	tailBlank  int // index into g03TailBlanks
+	closers    int // > 0: this many ')' instead of the member's "))" (close* of the grammar)
+	stretchAt  int // gap whose separator is repeated up to stretchLen bytes (-1: none)
+	stretchLen int
+}
+
+var g03NoOpt = g03Opt{value: -1, stretchAt: -1}
+
+var g03StretchLens = []int{63, 64, 65, 255, 256, 257, 1023, 1024, 1025, 2047, 2048, 2049, 4095, 4096, 4097, 8193, 16385, 65536, 65537}
+
+func g03ValueApplies(pre g03Prefix) bool {
+	return pre.quote != 0 && (strings.HasPrefix(pre.text, "x") || strings.HasPrefix(pre.text, "admin"))
+}
+
 type g03Member struct {
 	pre    int
 	closer int
@@ -141,15 +168,43 @@ func init() {
 // g03Build renders one member. sepAt returns the separator for gap i;
 // mask assigns the case of letters outside quoted literals.
 func g03Build(m g03Member, sepAt func(i int) string, mask uint64) string {
+	return g03BuildOpt(m, sepAt, mask, g03NoOpt)
+}
+
+func g03BuildOpt(m g03Member, sepAt0 func(i int) string, mask uint64, o g03Opt) string {
 	pre := g03Prefixes[m.pre]
 	pay := g03Payloads[m.pay]
 	q := pre.quote
 	if q == 0 {
 		q = '\''
 	}
+	sepAt := sepAt0
+	if o.stretchAt >= 0 {
+		sepAt = func(i int) string {
+			sp := sepAt0(i)
+			if i == o.stretchAt && len(sp) > 0 && o.stretchLen > len(sp) {
+				return strings.Repeat(sp, o.stretchLen/len(sp))
+			}
+			return sp
+		}
+	}
 	var b strings.Builder
-	b.WriteString(pre.text)
-	b.WriteString(g03Closers[m.closer])
+	if o.value >= 0 && g03ValueApplies(pre) {
+		v := g03Values[o.value%len(g03Values)]
+		other := "\""
+		if pre.quote == '"' {
+			other = "'"
+		}
+		b.WriteString(strings.ReplaceAll(v, "\x01", other))
+		b.WriteByte(pre.quote)
+	} else {
+		b.WriteString(pre.text)
+	}
+	if o.closers > 0 && g03Closers[m.closer] == "))" {
+		b.WriteString(strings.Repeat(")", o.closers))
+	} else {
+		b.WriteString(g03Closers[m.closer])
+	}
 	gap := 0
 	letter := uint(0)
 	tm := pay.tmpl
@@ -185,7 +240,11 @@ func g03Build(m g03Member, sepAt func(i int) string, mask uint64) string {
 			b.WriteByte(c)
 		}
 	}
-	b.WriteString(g03Tails[m.tail])
+	tail := g03Tails[m.tail]
+	if o.tailBlank > 0 {
+		tail = strings.ReplaceAll(tail, " ", g03TailBlanks[o.tailBlank%len(g03TailBlanks)])
+	}
+	b.WriteString(tail)
 	return b.String()
 }
 
@@ -244,6 +303,7 @@ func genC03(w *core.Worker, u core.Unit, emit func(s string, meta string)) {
 	}
 	r := core.NewRng(w.R.Seed, "g03", fmt.Sprint(u.Lo))
 	g03InitWordCases()
+	g03InitValueCases()
 	for i := u.Lo; i < u.Hi; i++ {
 		m := g03Members[i%nm]
 		round := i / nm
@@ -251,7 +311,14 @@ func genC03(w *core.Worker, u core.Unit, emit func(s string, meta string)) {
 		nsep := uint64(len(g03Seps))
 		nmask := uint64(len(g03FixedMasks))
 		exh1 := nm * nsep * nmask
-		if i >= exh1 && i < exh1+uint64(len(g03WordCases)) {
+		exh2 := exh1 + uint64(len(g03WordCases))
+		if i >= exh2 && i < exh2+uint64(len(g03ValueCases)) {
+			// exhaustive part 3: every value text x every tail-blank for the quoted "x"/"admin" prefixes
+			vc := g03ValueCases[i-exh2]
+			m = g03Members[vc.m]
+			sep := g03Seps[int(i)%len(g03Seps)]
+			s = g03BuildOpt(m, func(int) string { return sep }, g03FixedMasks[int(i/7)%len(g03FixedMasks)], g03Opt{value: vc.value, tailBlank: vc.blank, stretchAt: -1})
+		} else if i >= exh1 && i < exh1+uint64(len(g03WordCases)) {
 			// exhaustive part 2: one word of the payload re-cased, the rest lower-case
 			wc := g03WordCases[i-exh1]
 			m = g03Members[wc.m]
@@ -263,7 +330,21 @@ func genC03(w *core.Worker, u core.Unit, emit func(s string, meta string)) {
 			s = g03Build(m, func(int) string { return sep }, g03FixedMasks[round/nsep])
 		} else {
 			// sampled part: independent separator per gap, random mask
-			s = g03Build(m, func(int) string { return g03Seps[r.Intn(len(g03Seps))] }, r.U64())
+			o := g03NoOpt
+			if r.Intn(2) == 0 {
+				o.value = r.Intn(len(g03Values))
+			}
+			if r.Intn(2) == 0 {
+				o.tailBlank = r.Intn(len(g03TailBlanks))
+			}
+			if g03Closers[m.closer] == "))" && r.Intn(4) == 0 {
+				o.closers = []int{3, 4, 5, 8, 31, 64, 255, 1000, 2047, 2048, 2049, 4097, 16385, 65537}[r.Intn(14)]
+			}
+			if r.Intn(16) == 0 {
+				o.stretchAt = r.Intn(4)
+				o.stretchLen = g03StretchLens[r.Intn(len(g03StretchLens))]
+			}
+			s = g03BuildOpt(m, func(int) string { return g03Seps[r.Intn(len(g03Seps))] }, r.U64(), o)
 		}
 		pay := g03Payloads[m.pay]
 		emit(s, pay.family+"|"+pay.tmpl+"|"+g03Prefixes[m.pre].text+g03Closers[m.closer]+"|"+g03Tails[m.tail])
@@ -300,16 +381,36 @@ func g03InitWordCases() {
 	}
 }
 
+var g03ValueCases []struct{ m, value, blank int }
+
+func g03InitValueCases() {
+	if g03ValueCases != nil {
+		return
+	}
+	k := 0
+	for mi, m := range g03Members {
+		if !g03ValueApplies(g03Prefixes[m.pre]) {
+			continue
+		}
+		for vi := range g03Values {
+			// every (member, value); the tail blank rotates
+			g03ValueCases = append(g03ValueCases, struct{ m, value, blank int }{mi, vi, k % len(g03TailBlanks)})
+			k++
+		}
+	}
+}
+
 func g03ExhaustiveCount() uint64 {
 	g03InitWordCases()
-	return uint64(len(g03Members))*uint64(len(g03Seps))*uint64(len(g03FixedMasks)) + uint64(len(g03WordCases))
+	g03InitValueCases()
+	return uint64(len(g03Members))*uint64(len(g03Seps))*uint64(len(g03FixedMasks)) + uint64(len(g03WordCases)) + uint64(len(g03ValueCases))
 }
 
 // C03 — canonical SQL injection families are detected in every quoting context.
 func c03() *core.Check {
 	return &core.Check{
 		ID: "C03",
-		Rule: "members of the fixed attack grammar G_sqli (prefix x closers x separator x payload family x case mask x tail; productions dropped by the one-time calibration are listed in grammar/g03_dropped.txt): exhaustively with one separator per string and four fixed case masks, then every word of the payload re-cased on its own (all 2^k assignments for words up to 4 letters), then sampled with an independent separator per gap and random masks. Oracle: IsSQLi = true. " +
+		Rule: "members of the fixed attack grammar G_sqli (prefix x closers x separator x payload family x case mask x tail; productions dropped by the one-time calibration are listed in grammar/g03_dropped.txt): exhaustively with one separator per string and four fixed case masks, then every word of the payload re-cased on its own (all 2^k assignments for words up to 4 letters), then every quoted \"x\"/\"admin\" member with each of 24 realistic value texts before the quote (dates, names with blanks, values containing # -- /* or the other quote kind) and the blank of the trailing comment replaced by every other white-space byte, then sampled with an independent separator per gap, random masks, random value text, 3-65537 closing parentheses on a quarter of the \"))\" members, and one separator in sixteen repeated up to a threshold length (63-65537 bytes). Oracle: IsSQLi = true. " +
 			"Non-trivial = every member; distinct by string.",
 		Plan: func(tier string, seed uint64) []core.Unit {
 			total := g03ExhaustiveCount()
